@@ -25,7 +25,15 @@ RULE = (
     "+ noise data, rank vector (or scalar) within the mode sizes, start in {random under np_seed, nvecs, given list}, any "
     "mode order, maxiters 1..6, stoptol, printitn; truncated runs k = 1..maxiters with stoptol 0.  Oracle: NumPy on the "
     "dense data (U'U = I, core = X x_n U_n', ||X - T||^2, fit).  Non-trivial: some rank strictly inside its mode size "
-    "and a discarded part > 1e-6 ||X||^2."
+    "and a discarded part > 1e-6 ||X||^2.  Round 2 classes: (1) data reached by growth / permute / C-ordered input / "
+    "sptensor.to_tensor / arithmetic; (2) integer-valued data held in int8/16/32/64, uint8/16 at magnitudes 3 / 100 / the "
+    "whole range of the dtype (hosvd and tucker_als), integer-valued start matrices held as int64 (tucker_als), float32 data "
+    "for hosvd only and with single-precision bounds (orthonormality 1e-5, core 1e-9 ||X||^2, error bound slack 1e-9 "
+    "||X||^2, tol >= 1e-2); (4) exactly tied spectra, exactly low multilinear rank, block-diagonal and constant data, one "
+    "mode of size 21..32 (above ARPACK's default subspace), starts made of unit vectors / with exact zeros and a zero row; "
+    "(5) data magnitude 1e-6..1e6, verbosity any float in {-7.5..1000}, stoptol 0 or log-uniform 1e-12..1, printitn in "
+    "{-5,-1,0,1,2,3,7,1000}.  tucker_als requests that turn out degenerate along the sweeps (NumPy replay: lambda_r/lambda_1 < "
+    "1e-12 for a requested column) are judged by the per-run clauses only."
 )
 ASSUMPTIONS = [
     "bulk numeric content expanded by np.random.default_rng from Hypothesis-drawn integer seeds; spectra, tol class, "
@@ -50,7 +58,16 @@ def _ranks_given_inside(case):
     return r is not None and any(int(a) < int(n) for a, n in zip(r, case["shape"]))
 
 
-PREDICATES = {"ranks_given_inside": _ranks_given_inside}
+def _int_square_wraps(case):
+    """data held in an integer dtype in which the square of some entry does not fit (hosvd squares in that dtype)."""
+    dt = case.get("dtype", "float64")
+    if dt not in INT_RANGE:
+        return False
+    A = hosvd_data(case)
+    return bool(float(np.max(np.abs(A))) ** 2 > float(np.iinfo(np.dtype(dt)).max))
+
+
+PREDICATES = {"ranks_given_inside": _ranks_given_inside, "int_square_wraps": _int_square_wraps}
 
 # --------------------------------------------------------------------------
 # data with prescribed spectra
@@ -62,7 +79,14 @@ SPECTRA = {
     "flat": lambda m: [1.0 - 0.01 * i for i in range(m)],
     "flat-then-drop": lambda m: [1.0 if i < (m + 1) // 2 else 1e-3 * (1 + i) for i in range(m)],
     "pairs": lambda m: [1.0 / (1 + i // 2) + 1e-3 * (i % 2) for i in range(m)],
+    # exact ties (class 4): eigenvalues equal in exact arithmetic, so the rank-switch values coincide
+    "tied-pairs": lambda m: [4.0 ** (-(i // 2)) for i in range(m)],
+    "all-equal": lambda m: [1.0 for _ in range(m)],
+    "tied-tail": lambda m: [1.0 if i == 0 else 0.0625 for i in range(m)],
 }
+
+# integer data, holders in a given dtype / provenance: shared with C09 and C18 (see _c09_helpers)
+INT_RANGE, MAGS, int_data, hold, PROVS_F64, PROVS_ANY = H.INT_RANGE, H.MAGS, H.int_data, H.hold, H.PROVS_F64, H.PROVS_ANY
 
 
 def _orth(rng, n, m):
@@ -88,12 +112,31 @@ def hosvd_data(case) -> np.ndarray:
         Q = [_orth(rng, n, n) for n in shape]
         return ref.den_tucker(G, Q) * float(case.get("scale", 1.0))
     if kind == "lowrank-noise":
-        return H.dense_problem(shape, int(case.get("rtrue", 2)), int(case["data_seed"]), float(case.get("noise", 0.1)))
+        return H.dense_problem(shape, int(case.get("rtrue", 2)), int(case["data_seed"]), float(case.get("noise", 0.1))) \
+            * float(case.get("scale", 1.0))
     if kind == "integers":
+        if case.get("dtype", "float64") in INT_RANGE:
+            return int_data(shape, rng, case["dtype"], case.get("mag", "small"), False)
         A = rng.integers(-3, 4, tuple(shape)).astype(float)
         if not A.any():
             A.flat[0] = 1.0
         return A
+    if kind == "int-lowrank":
+        return int_data(shape, rng, case["dtype"], case.get("mag", "medium"), True, int(case.get("rtrue", 2)))
+    if kind == "exact-lowrank":  # multilinear rank strictly inside the mode sizes: exactly zero trailing eigenvalues
+        ml = [max(1, min(int(r), n)) for r, n in zip(case["mlrank"], shape)]
+        G = rng.standard_normal(tuple(ml))
+        Q = [_orth(rng, n, r) for n, r in zip(shape, ml)]
+        return ref.den_tucker(G, Q) * float(case.get("scale", 1.0))
+    if kind == "block":  # two diagonal blocks, exact zeros elsewhere
+        A = np.zeros(tuple(shape))
+        cut = [max(1, n // 2) for n in shape]
+        A[tuple(slice(0, c) for c in cut)] = rng.standard_normal(tuple(cut))
+        if all(n >= 2 for n in shape):
+            A[tuple(slice(c, None) for c in cut)] = 0.5 * rng.standard_normal(tuple(n - c for n, c in zip(shape, cut)))
+        return A * float(case.get("scale", 1.0))
+    if kind == "constant":
+        return np.full(tuple(shape), 1.5) * float(case.get("scale", 1.0))
     raise ValueError(kind)
 
 
@@ -146,27 +189,60 @@ def _tol(draw):
     return dict(kind="value", tag="near1", value=draw(st.sampled_from([0.9, 0.99, 0.999])))
 
 
+SCALES = H.SCALES  # every bound below is relative to ||X||^2, so the relations are scale-free
+DTYPES = ["float64"] * 9 + ["int64", "int32", "int16", "uint8", "uint16", "int8", "float32"]
+
+
+@st.composite
+def _shape(draw, tier, N, lo1=7, cap=None):
+    """mode sizes; one case in eight has a mode above 20 (eigensolvers switch regime there: ARPACK's default subspace is
+    20 vectors) and the other modes small"""
+    hi = 5 if tier == "quick" else 6
+    cap = cap or (200 if tier == "quick" else 600)
+    shape = [draw(st.integers(1 if draw(st.integers(0, lo1)) == 0 else 2, hi)) for _ in range(N)]
+    if draw(st.integers(0, 7)) == 0:
+        k = draw(st.integers(0, N - 1))
+        shape = [min(n, 3) for n in shape]
+        shape[k] = draw(st.integers(21, 32))
+    while ref.prod(shape) > cap:
+        cand = [n for n in shape if n <= 20] or shape
+        big = max(cand)
+        if big <= 1:
+            shape[shape.index(max(shape))] -= 1
+        else:
+            shape[shape.index(big)] -= 1
+    return shape
+
+
 @st.composite
 def _hosvd_case(draw, tier):
     N = draw(st.sampled_from([1, 2, 3, 3, 3, 4] if tier == "quick" else [1, 2, 3, 3, 4, 4, 5]))
-    hi = 5 if tier == "quick" else 6
-    cap = 200 if tier == "quick" else 600
-    shape = [draw(st.integers(1 if draw(st.integers(0, 7)) == 0 else 2, hi)) for _ in range(N)]
-    while ref.prod(shape) > cap:
-        shape[shape.index(max(shape))] -= 1
-    kind = draw(st.sampled_from(["superdiag", "tucker-decay", "tucker-decay", "lowrank-noise", "integers"]))
-    c = dict(shape=shape, kind=kind, data_seed=draw(st.integers(0, 10**6)))
+    shape = draw(_shape(tier, N))
+    dtype = draw(st.sampled_from(DTYPES))
+    if dtype in INT_RANGE:
+        kind = draw(st.sampled_from(["integers", "int-lowrank", "int-lowrank"]))
+    else:
+        kind = draw(st.sampled_from(["superdiag", "superdiag", "tucker-decay", "tucker-decay", "tucker-decay", "lowrank-noise",
+                                     "lowrank-noise", "integers", "exact-lowrank", "block", "constant"]))
+    c = dict(shape=shape, kind=kind, data_seed=draw(st.integers(0, 10**6)), dtype=dtype)
+    if dtype in INT_RANGE:
+        c["mag"] = draw(st.sampled_from(["small", "medium", "full"]))
+        c["rtrue"] = draw(st.integers(1, 3))
     if kind == "superdiag":
         c["spectrum"] = draw(st.sampled_from(sorted(SPECTRA)))
-    if kind in ("superdiag", "tucker-decay"):
-        c["scale"] = draw(st.sampled_from([1.0, 1.0, 1e-3, 1e4]))
+    if kind in ("superdiag", "tucker-decay", "lowrank-noise", "exact-lowrank", "block", "constant"):
+        c["scale"] = draw(st.sampled_from(SCALES))
     if kind == "lowrank-noise":
         c["rtrue"] = draw(st.integers(1, 3))
         c["noise"] = draw(st.sampled_from([1e-3, 0.1, 1.0]))
+    if kind == "exact-lowrank":
+        c["mlrank"] = [draw(st.integers(1, n)) for n in shape]
+    c["prov"] = draw(st.sampled_from(PROVS_F64 if dtype == "float64" else PROVS_ANY))
     c["tol"] = draw(_tol())
     c["sequential"] = draw(st.booleans())
     c["dimorder"] = draw(st.one_of(st.none(), st.permutations(range(N)).map(list), st.permutations(range(N)).map(list)))
-    c["verbosity"] = draw(st.sampled_from([-1, 0, 0, 1, 3, 6, 11]))
+    # verbosity is documented as a float "print level": thresholds at 0, 2 and 5
+    c["verbosity"] = draw(st.sampled_from([-1, 0, 0, 1, 3, 6, 11, 0.5, 2.5, 5, 1000, -7.5]))
     if draw(st.integers(0, 3)) == 0:
         c["ranks"] = [draw(st.integers(1, n)) for n in shape]
     else:
@@ -190,8 +266,9 @@ def _form(v, form):
 # --------------------------------------------------------------------------
 
 
-def _structure(ctx, T, A, tag):
-    """ttensor with dense core, factors (n_k x r_k) orthonormal, core = X x_n U_n'.  Returns (den(T), ranks)."""
+def _structure(ctx, T, A, tag, f32=False):
+    """ttensor with dense core, factors (n_k x r_k) orthonormal, core = X x_n U_n'.  Returns (den(T), ranks).
+    f32: data held in float32 -- the bounds are those of single precision (1e-5 / 1e-9 ||X||^2)."""
     ctx.require(isinstance(T, ttb.ttensor), f"{tag}returns-ttensor", type(T).__name__)
     fm = T.factor_matrices
     N = A.ndim
@@ -205,9 +282,9 @@ def _structure(ctx, T, A, tag):
     ctx.require(tuple(G.shape) == tuple(ranks) and np.all(np.isfinite(G)), f"{tag}core-shape-matches-factors",
                 (G.shape, ranks))
     worst = max(float(np.max(np.abs(u.T @ u - np.eye(u.shape[1])))) for u in fm)
-    ctx.check(worst <= 1e-10, f"{tag}factors-orthonormal", worst)
+    ctx.check(worst <= (1e-5 if f32 else 1e-10), f"{tag}factors-orthonormal", worst)
     Gref = ref.den_tucker(A, [u.T for u in fm])
-    ctx.check(H.sq(G - Gref) <= 1e-20 * H.sq(A), f"{tag}core-is-data-times-transposed-factors",
+    ctx.check(H.sq(G - Gref) <= (1e-9 if f32 else 1e-20) * H.sq(A), f"{tag}core-is-data-times-transposed-factors",
               f"||core - ref||^2 = {H.sq(G - Gref)!r}, ||X||^2 = {H.sq(A)!r}")
     return ref.den_tucker(G, fm), ranks
 
@@ -219,11 +296,21 @@ def _hosvd_body(ctx, case):
     shape = [int(s) for s in case["shape"]]
     N = len(shape)
     A = hosvd_data(case)
+    dtype = case.get("dtype", "float64")
+    f32 = dtype == "float32"
+    if f32:  # the values the float32 holder has, exactly
+        A = A.astype(np.float32).astype(float)
     n2 = H.sq(A)
     if n2 == 0 or not np.isfinite(n2):
         ctx.skip("zero-data")
     tol, tlabel = resolve_tol(case, A)
-    X = H.make_tensor(A)
+    if f32:
+        tol = max(tol, 1e-2)
+    X, prov = hold(A, dtype, case.get("prov", "ctor"), int(case["data_seed"]))
+    ctx.label("dtype-" + dtype, "prov-" + prov, "scale-%g" % float(case.get("scale", 1.0)),
+              "long-mode" if max(shape) > 20 else "short-modes")
+    if dtype in INT_RANGE:
+        ctx.label("mag-" + case.get("mag", "small"))
     snap = H.snapshot(X)
     ranks_in = case["ranks"]
     kw = dict(verbosity=case["verbosity"], sequential=bool(case["sequential"]))
@@ -240,12 +327,13 @@ def _hosvd_body(ctx, case):
             T = ttb.hosvd(X, tol, **kw)
     text = buf.getvalue()
     ctx.check(H.snapshot(X) == snap, "data-unchanged")
-    D, ranks = _structure(ctx, T, A, "")
+    D, ranks = _structure(ctx, T, A, "", f32)
     err2 = H.sq(A - D)
     ctx.nt = any(r < n for r, n in zip(ranks, shape)) and err2 > 1e-6 * n2
     ctx.label("truncated" if any(r < n for r, n in zip(ranks, shape)) else "full-ranks")
     if ranks_in is None:
-        ctx.check(err2 <= tol * tol * n2 * (1 + 1e-9) + 1e-26 * n2, "relative-error-within-tol",
+        slack = (1e-4, 1e-9) if f32 else (1e-9, 1e-26)
+        ctx.check(err2 <= tol * tol * n2 * (1 + slack[0]) + slack[1] * n2, "relative-error-within-tol",
                   f"||X-T||^2/||X||^2 = {err2 / n2!r} > tol^2 = {tol * tol!r} (ranks {ranks} of {shape})")
     else:
         ctx.check(ranks == [int(r) for r in ranks_in], "given-ranks-are-returned", f"requested {ranks_in} got {ranks}")
@@ -323,27 +411,37 @@ def tucker_data(case) -> np.ndarray:
     """Tucker model of multilinear rank `mlrank` (generic core, orthonormal factors) + relative noise."""
     shape = [int(s) for s in case["shape"]]
     rng = np.random.default_rng([37, int(case["data_seed"])])
+    sc = float(case.get("scale", 1.0))
     if case["kind"] == "cp-noise":
-        return H.dense_problem(shape, int(case["rtrue"]), int(case["data_seed"]), float(case["noise"]))
+        return H.dense_problem(shape, int(case["rtrue"]), int(case["data_seed"]), float(case["noise"])) * sc
+    if case["kind"] == "int-noise":  # integer-valued data (rounded low-rank model + integer noise) for an integer holder
+        return int_data(shape, rng, case["dtype"], case.get("mag", "medium"), True, int(case.get("rtrue", 2)))
     ml = [int(r) for r in case["mlrank"]]
     G = rng.standard_normal(tuple(ml))
     Q = [_orth(rng, n, r) for n, r in zip(shape, ml)]
     A = ref.den_tucker(G, Q)
     E = rng.standard_normal(tuple(shape))
-    return A + float(case["noise"]) * np.sqrt(H.sq(A) / A.size) * E
+    return (A + float(case["noise"]) * np.sqrt(H.sq(A) / A.size) * E) * sc
+
+
+STOPTOLS, PRINTITNS = H.STOPTOLS, H.PRINTITNS
 
 
 @st.composite
 def _tucker_case(draw, tier):
     N = draw(st.sampled_from([2, 3, 3, 3, 4] if tier == "quick" else [2, 3, 3, 4, 4]))
-    hi = 5 if tier == "quick" else 6
-    cap = 200 if tier == "quick" else 500
-    shape = [draw(st.integers(1 if draw(st.integers(0, 7)) == 0 else 2, hi)) for _ in range(N)]
-    while ref.prod(shape) > cap:
-        shape[shape.index(max(shape))] -= 1
-    kind = draw(st.sampled_from(["tucker-noise", "tucker-noise", "cp-noise"]))
+    shape = draw(_shape(tier, N, cap=200 if tier == "quick" else 500))
+    dtype = draw(st.sampled_from(["float64"] * 10 + ["int64", "int32", "int16", "uint8", "uint16", "int8"]))
+    kind = "int-noise" if dtype in INT_RANGE else draw(st.sampled_from(["tucker-noise", "tucker-noise", "cp-noise"]))
     c = dict(shape=shape, kind=kind, data_seed=draw(st.integers(0, 10**6)),
-             noise=draw(st.sampled_from([0.0, 1e-3, 0.1, 1.0])))
+             noise=draw(st.sampled_from([0.0, 1e-3, 0.1, 1.0])), dtype=dtype)
+    if dtype in INT_RANGE:
+        c["mag"] = draw(st.sampled_from(["small", "medium", "full"]))
+        c["rtrue"] = draw(st.integers(1, 3))
+        c["noise"] = 0.1
+    else:
+        c["scale"] = draw(st.sampled_from(SCALES))
+    c["prov"] = draw(st.sampled_from(PROVS_F64 if dtype == "float64" else PROVS_ANY))
     if kind == "cp-noise":
         c["rtrue"] = draw(st.integers(1, 3))
         if c["noise"] == 0.0:
@@ -365,14 +463,14 @@ def _tucker_case(draw, tier):
             for n in range(N):
                 rank[n] = min(rank[n], ref.prod(rank) // rank[n])
     c["rank"] = rank
-    c["init"] = draw(st.sampled_from(["random", "nvecs", "list", "list-orth"]))
+    c["init"] = draw(st.sampled_from(["random", "nvecs", "list", "list-orth", "list-eye", "list-zeros", "list-int"]))
     c["init_seed"] = draw(st.integers(0, 10**6))
     c["np_seed"] = draw(st.integers(0, 2**31 - 1))
     c["dimorder"] = draw(st.one_of(st.none(), st.permutations(range(N)).map(list), st.permutations(range(N)).map(list)))
     c["form"] = draw(st.sampled_from(["list", "array", "tuple"]))
     c["maxiters"] = draw(st.integers(1, 5 if tier == "quick" else 7))
-    c["stoptol"] = draw(st.sampled_from([0.0, 1e-4, 1e-2, 0.5]))
-    c["printitn"] = draw(st.integers(0, 2))
+    c["stoptol"] = draw(STOPTOLS)
+    c["printitn"] = draw(PRINTITNS)
     return c
 
 
@@ -383,9 +481,22 @@ def _tucker_init(case):
     rng = np.random.default_rng([41, int(case["init_seed"])])
     out = []
     for n, r in zip(case["shape"], case["rank"]):
-        M = rng.standard_normal((int(n), int(r)))
+        n, r = int(n), int(r)
+        M = rng.standard_normal((n, r))
         if kind == "list-orth":
             M, _ = np.linalg.qr(M)
+        elif kind == "list-eye":  # structured start: r distinct unit vectors (exactly orthogonal, disjoint supports)
+            M = np.eye(n)[:, rng.permutation(n)[:r]]
+        elif kind == "list-zeros":  # generic start with exact zeros: entries, and one whole row when there is room
+            M = np.where(rng.uniform(size=(n, r)) < 0.3, 0.0, M)
+            M[np.arange(r) % n, np.arange(r)] = 1.0 + np.arange(r)  # keeps the columns independent
+            if n > r:
+                M[n - 1, :] = 0.0
+        elif kind == "list-int":  # integer-valued start held in an integer array
+            M = rng.integers(-3, 4, (n, r))
+            M[np.arange(r) % n, np.arange(r)] += 7
+            out.append(np.asfortranarray(M.astype(np.int64)))
+            continue
         out.append(H.F(M))
     return out
 
@@ -400,6 +511,32 @@ def _tucker_run(X, case, init, maxiters, stoptol, printitn):
     with H.captured() as buf:
         res = ttb.tucker_als(X, rank, **kw)
     return res, buf.getvalue()
+
+
+def hooi_margin(A, Uinit, rank, dimorder, sweeps):
+    """NumPy replay of the alternating sweeps from the start actually used; returns the smallest lambda_r / lambda_1 met
+    among the Gram matrices whose r leading eigenvectors are requested.  ~0 means that some requested column is an
+    arbitrary null-space vector (degenerate request: two runs may differ), whatever the static rank test says."""
+    N = A.ndim
+    U = [None if u is None else np.asarray(u, dtype=float) for u in Uinit]
+    m = 1.0
+    for _ in range(sweeps):
+        for n in dimorder:
+            Y = A
+            for k in range(N):
+                if k != n:
+                    Y = np.moveaxis(np.tensordot(U[k].T, Y, axes=(1, k)), 0, k)
+            Yn = H.unfold(Y, n)
+            w, v = np.linalg.eigh(Yn @ Yn.T)
+            w, v = w[::-1], v[:, ::-1]
+            r = int(rank[n])
+            if w[0] <= 0:
+                return 0.0
+            m = min(m, float(w[r - 1] / w[0]))
+            if m < 1e-12:
+                return m
+            U[n] = v[:, :r]
+    return m
 
 
 def _tucker_reported(ctx, out, A, D, tag):
@@ -427,10 +564,15 @@ def tucker_als_generated(ctx, case):
     n2 = H.sq(A)
     if n2 == 0:
         ctx.skip("zero-data")
-    X = H.make_tensor(A)
+    X, prov = hold(A, case.get("dtype", "float64"), case.get("prov", "ctor"), int(case["data_seed"]))
     init = _tucker_init(case)
     snapX, snapI = H.snapshot(X), H.snapshot(init)
     maxiters, stoptol, printitn = int(case["maxiters"]), float(case["stoptol"]), int(case["printitn"])
+    ctx.label("dtype-" + case.get("dtype", "float64"), "prov-" + prov, "scale-%g" % float(case.get("scale", 1.0)),
+              "long-mode" if max(shape) > 20 else "short-modes",
+              "stoptol-0" if stoptol == 0 else ("stoptol<1e-6" if stoptol < 1e-6 else "stoptol>=1e-6"),
+              "printitn-neg" if printitn < 0 else ("printitn-0" if printitn == 0 else
+                                                   ("printitn>maxiters" if printitn > maxiters else "printitn-small")))
     dimorder = case["dimorder"] if case["dimorder"] is not None else list(range(N))
     feasible = all(r <= ref.prod(rank) // r for r in rank)
     if case["kind"] == "tucker-noise" and float(case["noise"]) == 0.0 and any(m < r for m, r in zip(case["mlrank"], rank)):
@@ -458,12 +600,24 @@ def tucker_als_generated(ctx, case):
     ctx.require(iters is not None and 0 <= iters <= maxiters - 1, "iters-within-limit", out["iters"])
     ctx.nt = any(r < n for r, n in zip(rank, shape)) and err2 > 1e-6 * n2
     ctx.label("stopped-early" if iters < maxiters - 1 else "ran-to-limit")
+    if feasible:
+        # structured starts / data can make a request degenerate along the way (a selected sub-tensor of lower rank):
+        # replay the sweeps in NumPy from the start actually used and look at the eigenvalue behind the last requested column
+        first = dimorder[0]
+        ok_init = isinstance(Uinit, list) and len(Uinit) == N and all(
+            isinstance(u, np.ndarray) and u.shape == (shape[k], rank[k]) and np.all(np.isfinite(u))
+            for k, u in enumerate(Uinit) if k != first)
+        if ok_init and hooi_margin(A, Uinit, rank, dimorder, maxiters) < 1e-12:
+            feasible = False
+            ctx.label("degenerate-along-the-sweeps")
     if isinstance(init, list):
-        ctx.check(isinstance(Uinit, list) and H.snapshot(Uinit) == snapI, "returned-guess-is-the-given-one")
+        same = isinstance(Uinit, list) and len(Uinit) == N and all(
+            isinstance(u, np.ndarray) and u.shape == g.shape and np.array_equal(u, g) for u, g in zip(Uinit, init))
+        ctx.check(same, "returned-guess-is-the-given-one")
     # printed lines
     its, _, bad = H.parse_iter_lines(text)
     ctx.check(not bad, "printed-lines-parse", bad[:2])
-    if printitn == 0 and case["init"] != "nvecs":
+    if printitn <= 0 and case["init"] != "nvecs":
         ctx.check(text.strip() == "", "silent-when-printitn-0", text[:80])
     # truncated runs from the same start
     fits, errs = [], []
@@ -505,10 +659,11 @@ def tucker_als_generated(ctx, case):
         ctx.check(all(i < len(fits) and H.printed_close(f, fits[i]) for i, f, _ in its), "printed-fit-equals-fit-of-truncated-run",
                   [(i, f) for i, f, _ in its][:4])
     deltas = [abs(fits[k] - (fits[k - 1] if k else 0.0)) for k in range(len(fits))]
+    margin = 1e-6 if arpack else 1e-9  # the fits come from separate runs (see the ARPACK remark above)
     if stoptol > 0:
         if iters < maxiters - 1:
-            ctx.check(deltas[iters] < stoptol + 1e-9, "stopped-only-when-change-below-stoptol", (iters, deltas, stoptol))
-        ctx.check(not [k for k in range(iters) if deltas[k] < stoptol - 1e-9], "stops-at-first-change-below-stoptol",
+            ctx.check(deltas[iters] < stoptol + margin, "stopped-only-when-change-below-stoptol", (iters, deltas, stoptol))
+        ctx.check(not [k for k in range(iters) if deltas[k] < stoptol - margin], "stops-at-first-change-below-stoptol",
                   (iters, deltas, stoptol))
     else:
         ctx.check(iters == maxiters - 1, "stoptol0-runs-all-iterations", (iters, maxiters))
